@@ -783,13 +783,13 @@ def _run_pool(worker, tasks):
     _px()  # import once, inherited by the forked workers
     ctx = multiprocessing.get_context('fork')
     with ctx.Pool(min(NPROC, len(tasks))) as pool:
-        return pool.map(worker, tasks, chunksize=max(1, len(tasks) // (NPROC * 8)))
+        return pool.map(worker, tasks, chunksize=1)
 
 
 def bounded_dataflow(tier):
     fams = _families(tier)
     tasks = []
-    for fam in fams:
+    for fam in reversed(fams):       # the families with the largest tasks first (load balance only)
         tasks += _tasks(fam)
     results = _run_pool(_df_worker, tasks)
     cases = nontrivial = 0
